@@ -176,6 +176,26 @@ IMPOSSIBLE: Dict[str, Tuple[str, bytes]] = {
     'ed-short': ('ssh-ed25519', _s(b'ssh-ed25519') + _s(b'\x01' * 31)),
     'ed-long': ('ssh-ed25519', _s(b'ssh-ed25519') + _s(b'\x01' * 33)),
     'ed-empty': ('ssh-ed25519', _s(b'ssh-ed25519') + _s(b'')),
+    # security-key types: the application name is text
+    'sk-ed-app-not-utf8': ('sk-ssh-ed25519@openssh.com',
+                           _s(b'sk-ssh-ed25519@openssh.com') +
+                           _s(b'\x01' * 32) + _s(b'\xff\xfe')),
+    'sk-ec-app-not-utf8': ('sk-ecdsa-sha2-nistp256@openssh.com',
+                           _s(b'sk-ecdsa-sha2-nistp256@openssh.com') +
+                           _s(b'nistp256') + _s(KEYS[6][1][-65:]) +
+                           _s(b'\xc3')),
+    'sk-ec-offcurve': ('sk-ecdsa-sha2-nistp256@openssh.com',
+                       _s(b'sk-ecdsa-sha2-nistp256@openssh.com') +
+                       _s(b'nistp256') + _s(b'\x04' + b'\x01' * 64) +
+                       _s(b'ssh:')),
+    'sk-ed-short': ('sk-ssh-ed25519@openssh.com',
+                    _s(b'sk-ssh-ed25519@openssh.com') + _s(b'\x01' * 5) +
+                    _s(b'ssh:')),
+    'dsa-zero': ('ssh-dss', _s(b'ssh-dss') + _mp(0) + _mp(0) + _mp(0) +
+                 _mp(0)),
+    'dsa-neg': ('ssh-dss', _s(b'ssh-dss') + _mp(-7) + _mp(5) + _mp(2) +
+                _mp(3)),
+    'ed448-short': ('ssh-ed448', _s(b'ssh-ed448') + _s(b'\x01' * 56)),
 }
 UNKNOWN_ALGS = ['ssh-foo', 'ssh-ed25519x', 'rsa', 'ecdsa-sha2-nistp999',
                 'ssh-rsa2', 'x']
